@@ -231,7 +231,29 @@ static void run_case(cs::Src& s, cs::Ctx& ctx) {
   o.dup_keys = s.chance(1, 12);
   o.top_container = s.chance(5, 6);
   o.max_depth = (size_t)s.range(1, 5);
+  o.long_strings = s.chance(1, 3);
   Val v = gen::gen_value(s, o);
+  if (s.chance(1, 12)) {
+    // a long string (or bin) early in the input followed by many small values: what a filter discards
+    // must not stay allocated while the rest is parsed
+    static const size_t L[] = {32, 64, 96, 128, 300, 1000, 2100, 5000};
+    size_t n = L[s.below(8)];
+    Val big = Val::str(std::string(n, (char)('a' + s.below(26))));
+    Val tail = Val::arr();
+    size_t k = 20 + (size_t)s.below(400);
+    for (size_t i = 0; i < k; i++) tail.a.push_back(Val::uint(i));
+    Val w2 = s.coin() ? Val::arr() : Val::obj();
+    if (w2.k == Val::Arr) {
+      w2.a.push_back(big);
+      w2.a.push_back(tail);
+      if (s.coin()) w2.a.push_back(v);
+    } else {
+      w2.o.push_back({"big", big});
+      w2.o.push_back({"tail", tail});
+      w2.o.push_back({"a", v});
+    }
+    v = w2;
+  }
   bool zone_in = ref::has_duplicate_keys(v);
   std::string bytes;
   if (msgpack) {
@@ -245,6 +267,18 @@ static void run_case(cs::Src& s, cs::Ctx& ctx) {
     bytes = gen::spell_document(s, sp, v);
   }
   Val f = s.chance(5, 6) ? derive_filter(s, v, 0) : gen::gen_value(s, o);
+  if (s.chance(1, 10)) {  // keep nested arrays / the tail only
+    Val inner = Val::arr();
+    inner.a.push_back(Val::boolean(true));
+    if (v.k == Val::Arr) {
+      f = Val::arr();
+      f.a.push_back(inner);
+    } else {
+      f = Val::obj();
+      f.o.push_back({"tail", s.coin() ? Val::boolean(true) : inner});
+      if (s.coin()) f.o.push_back({"big", Val::arr()});
+    }
+  }
   bool malformed = s.chance(1, 5);
   if (malformed) mutate(s, bytes);
   int limit = s.chance(1, 8) ? (int)s.below(4) : 10;
